@@ -25,7 +25,7 @@ CLAIMED = {
         text='Seeded search over client workloads, latencies, set orders and fault/cancellation times against the real '
              'ConnectionPool/HostPool/Connection code. Sharing and over-allocation are checked as invariants after every '
              'event-loop callback; starvation at every instant when nothing is runnable; leaks and bookkeeping after all '
-             'clients finished. A clean batch is evidence, not proof; tiny configurations saturate their interleaving space.',
+             'clients finished. One variant uses the HTTP proxy pool: plain requests, acquire()/session(), and tunnels whose CONNECT is granted, refused, answered with rubbish, answered late (so that cancellations fall inside it) or closed. A clean batch is evidence, not proof; tiny configurations saturate their interleaving space.',
         note='Trusted: CPython 3.12 asyncio primitives, the compatibility layer (DESIGN 1), FIFO ready queue. '
              'TCP/DNS/clock are simulated.'),
     'C13': dict(
@@ -49,7 +49,7 @@ CLAIMED = {
              'and trailers / read-until-close / no-body framings, content codings, surplus bytes, truncation at arbitrary '
              'and grammar-targeted offsets by FIN or RST) and over stream segmentations down to single bytes, on persistent '
              'connections in lock-step. Oracle: (status, fields, body, error) versus refs/rfc7230.py per exchange; truncated '
-             'messages must raise; connection reuse after surplus is monitored at the server.',
+             'messages must raise; connection reuse after surplus is monitored at the server, and so is reuse after a response that announced the end of the connection (Connection: close, HTTP/1.0 without keep-alive) with a FIN that arrives late. One variant drives a single Stream object through the whole script.',
         note='Trusted: refs/rfc7230.py for the generated unambiguous messages, zlib, CPython asyncio streams, compat layer. '
              'Only messages for which RFC 7230 gives one answer are generated.'),
     'C19': dict(
@@ -59,7 +59,7 @@ CLAIMED = {
                   'with truncation/corruption injected inside the coded stream; oracle is zlib one-shot decoding',
         text='Seeded search over payloads, compression settings, framings and segmentations; the pieces reaching the decoder are '
              'produced by the simulated transport. Oracle: body equals one-shot zlib decoding for every segmentation '
-             '(absolute and metamorphic); coded streams truncated or corrupted with intact HTTP framing must raise ProtocolError.',
+             '(absolute and metamorphic); coded streams truncated or corrupted with intact HTTP framing must raise ProtocolError. Identity bodies are judged as well, surplus bytes may follow the last coded body, and one variant drives a single Stream object through the whole script (what a decoder leaves behind must not touch the next body).',
         note='Trusted: zlib one-shot decode as reference. Byte 0 of a gzip stream is never corrupted (documented passthrough of '
              'bodies without gzip magic is not judged).'),
     'C04': dict(
@@ -88,7 +88,7 @@ CLAIMED = {
                   'against the byte slice it names, parsed by the independent reader',
         text='Seeded search as C04/C05. Oracle: exactly one CDX line per response record and none without; file[g][V:V+S] is '
              'exactly one record (one gzip member) with that record ID, URL and payload digest; status and MIME type equal '
-             'those parsed by the reference from the archived header block (multi-line, > 4 KiB, structured subtypes).',
+             'those parsed by the reference from the archived header block (multi-line, > 4 KiB, structured subtypes). A second phase may be a fresh (non-appending) run over the files the first one left: every file it writes to must be started afresh.',
         note='Trusted: refs/warc.py, refs/rfc7230.py header parsing.'),
     'C06': dict(
         level='fault_enumeration', engine='warcfault', design_ref='4/C06',
@@ -100,7 +100,7 @@ CLAIMED = {
              'for each, the fault positions are enumerated completely. I/O-error clause: write_record raised, archive bytes equal '
              'the pre-append bytes exactly, no journal left. Kill clause: archive is the old or the new valid record sequence, or a '
              'journal naming the pre-append length exists and truncation restores the old archive; a new recorder refuses to start '
-             'while the journal exists.',
+             'while the journal exists. Drawn histories before the append: numbered files, a roll-over that failed with an I/O error, archive names with glob characters, an empty or dotted base name, and the close of a second (appending) run.',
         note='Trusted: refs/warc.py; kill = loss of Python-level buffers only (bytes given to raw write() survive), cross-checked '
              'against real kills on a sample each run; one fault per append; failure of the journal unlink itself is waived.'),
     'C14': dict(
@@ -122,7 +122,7 @@ CLAIMED = {
              'reply shapes, error replies at every step, 226-before-EOF / EOF-before-226 / simultaneous, data connection reset, '
              'missing or negative completion. Oracle: control bytes split at CRLF give exactly one line per issued command with no '
              'CR/LF inside and no unexpected verb; Reply objects equal the reference assembler per connection and across '
-             'segmentations; success only after data EOF and a 226.',
+             'segmentations; success only after data EOF and a 226 (negative completions may carry a bare CR followed by what looks like a 226).',
         note='Trusted: refs/ftp.py. read_reply is observed through a logging subclass; active mode, TLS and REST are not exercised.'),
     'C16': dict(
         level='exploration', engine='web', design_ref='4/C16',
